@@ -185,3 +185,10 @@ UNITS += [recv_iter]
 # the handshake accept key is encodeBase64(SHA1::hash(key + GUID)) (RFC 6455 4.2.2): the C15 units of those two functions serve this clause
 from units.C15 import encodeBase64 as _b64, sha_macros as _sham, sha_update as _shau
 UNITS += [_b64, _sham, _shau]
+
+# replay: where the trace recipe of a unit does not reproduce (or there is none) the driver's battery runs on the real library: a raw client against the real WebSocketServer,
+# handshake accept key, one masked message of every length-form boundary (125/126/127, 32767/32768, 65535/65536) echoed back, then messages fragmented into 2, 3 and 5 frames
+_bat = replay.battery('C11/driver.cpp', ['battery'])
+for _u in UNITS:
+    if _u.name.startswith('WebSocket'):
+        _u.replay = replay.first_of(_u.replay, _bat) if _u.replay else _bat
